@@ -133,7 +133,7 @@ try:
     res["next_built"] = code[0] is not None
 except BaseException as e:
     res["next_request"] = "raised:" + type(e).__name__ + ":" + str(e)[:100]
-print("RESULT " + json.dumps(res))
+sys.__stdout__.write("RESULT " + json.dumps(res) + "\n"); sys.__stdout__.flush()
 '''
 
 
